@@ -67,9 +67,7 @@ def matrix_case(acc, E, case, slices):
                 i, j = rb + bi, cb + bj
                 got = float(got)
                 if i == 0 or j == 0:
-                    if pyM is not None and not close(got, float(pyM[i][j])):
-                        bad = bad or ((i, j), float(pyM[i][j]), got, 'border cell differs from the Python matrix')
-                    continue
+                    continue     # virtual start cells: not described by C18, not judged
                 exp = A[i][j]
                 if not close(got, exp):
                     bad = bad or ((i, j), exp, got, 'cell differs from the recurrence' if exp != NEG else 'excluded cell is not -inf')
